@@ -37,11 +37,6 @@ Inductive case :=
 Definition listN_eqb := leqb N.eqb.
 
 (* canonical class list of a class map on 0..n-1: smallest index with the same class *)
-(* 0 … n-1 in time linear in n ([nseq] converts every element from nat) *)
-Fixpoint nseq_from (k : nat) (a : N) : list N :=
-  match k with O => [] | S k' => a :: nseq_from k' (a + 1) end.
-Definition nseq_fast (n : N) : list N := nseq_from (N.to_nat n) 0.
-
 Definition canon_reps (cls : N -> N) (n : N) : list N :=
   let step (acc : PositiveMap.t N * list N) (v : N) :=
     let '(m, out) := acc in
@@ -50,7 +45,7 @@ Definition canon_reps (cls : N -> N) (n : N) : list N :=
     | Some r => (m, r :: out)
     | None => (PositiveMap.add k v m, v :: out)
     end in
-  rev (snd (fold_left step (nseq_fast n) (PositiveMap.empty N, []))).
+  rev (snd (fold_left step (nseq n) (PositiveMap.empty N, []))).
 
 Definition table (l : list N) : PositiveMap.t N :=
   snd (fold_left (fun '(k, m) x => (N.succ k, PositiveMap.add (N.succ_pos k) x m)) l (0, PositiveMap.empty N)).
